@@ -48,7 +48,7 @@ impl Closure {
     ) -> Result<ScopeRef, CallError> {
         self.body
             .args
-            .eval(scope, args)
+            .eval_user(scope, args)
             .map_err(|e| e.declared_at(&self.body.decl))
     }
 
